@@ -175,7 +175,10 @@ Definition clouds (ins : list input) : list cloud :=
         that feature type in a tar archive; [f_unit] = itemsize * dsize, the bytes of one row. *)
 Record fentry := mkF { f_path : string; f_tar : bool; f_unit : Z; f_data : string }.
 
-(* directory source: shutil.copy.  tar source: np.frombuffer(member, dtype).reshape((-1, dsize)) then
+(* [f_data] is the content a reader gets through the input path (a feature file may be a symbolic link, relative
+   or absolute, to a store elsewhere; its directory may be a link): shutil.copy follows links, so the merged
+   file holds that content whatever the depth of the output directory.
+   directory source: shutil.copy.  tar source: np.frombuffer(member, dtype).reshape((-1, dsize)) then
    ndarray.tofile: identical bytes when the member holds whole rows, ValueError otherwise *)
 Definition transfer (e : fentry) : option string :=
   if f_tar e then
